@@ -92,6 +92,12 @@ def _repo_tag():
     return "" if REPO == "/repo" else "-" + hashlib.sha1(REPO.encode()).hexdigest()[:10]
 
 
+def _lockfile():
+    """Cargo.lock is ignored by git in /repo: a scratch worktree (VERIF_REPO) may not have one"""
+    p = os.path.join(REPO, "Cargo.lock")
+    return p if os.path.exists(p) else "/repo/Cargo.lock"
+
+
 def hook_target_dir():
     return os.path.join(CACHE, "hooklib-target" + _repo_tag())
 
@@ -114,7 +120,7 @@ def build_expander():
         man = os.path.join(work, "Cargo.toml")
         t = open(man).read().replace("/repo/derive-ex/src/lib.rs", os.path.join(REPO, "derive-ex/src/lib.rs"))
         open(man, "w").write(t)
-        shutil.copy(os.path.join(REPO, "Cargo.lock"), os.path.join(work, "Cargo.lock"))
+        shutil.copy(_lockfile(), os.path.join(work, "Cargo.lock"))
         env = dict(ENV)
         env["RUSTFLAGS"] = "--cfg " + GUARD
         env["CARGO_TARGET_DIR"] = hook_target_dir()
